@@ -223,12 +223,14 @@ PROPS = {
     ),
     "C06": dict(
         title="Truncated files: complete records survive and the cut is visible",
-        lean_modules=["Gowarc.Props.C06", "Gowarc.Props.C06built"],
+        lean_modules=["Gowarc.Props.C06", "Gowarc.Props.C06built", "Gowarc.Props.C06header", "Gowarc.Props.C06after"],
         audit_namespaces=["Gowarc.Props.C06"],
         n_quick=25, n_thorough=300,
         required_theorems=["C06_survive", "C06_survive_cut", "C06_short_tail", "C06_cut_version_line", "C06_trailer_or_finding", "readLoop_succ",
-                           "C06_members_survive", "C06_cut_behind_header", "allReadAs_of_readsBack"],
+                           "C06_members_survive", "C06_cut_behind_header", "allReadAs_of_readsBack",
+                           "C06_cut_in_header", "C06_visible_plain", "C06_nothing_clean_after", "readLoop_no_clean", "unmarshal_short", "unmarshal_cut_version"],
         model_assumptions=["C06_survive is relative to the codec law `ReadsAs` (each complete member reads as a clean record for every continuation); for plain members that are marshalled records of the strict builder the law is now a theorem (C01_accepts, any tail, any end condition) and C06_members_survive states survival for such files without that hypothesis; for gzip members it stays validated per file (`wf=t`: implementation and model read the uncut file as clean records at the generated boundaries)",
+                           "C06_visible_plain (all cut positions of a plain record: fewer than five bytes, inside the version line, inside the header section - Lemmas/CutHeader.lean: the header parser never takes a cut section for a complete one -, inside block or trailer) and C06_nothing_clean_after (reading the cut remainder yields no clean record at all): the three clauses of the property are now theorems for plain files of strictly built records; gzip members rest on the codec law (readsBack_gzip) for survival and on the exhaustive enumeration for cuts inside a member",
                            "C06_cut_behind_header: for every record with clean fields and truthful Content-Length, every block content and every cut position inside the block or the four trailer bytes, Unmarshal returns an error or a record carrying the trailer finding (spec policy warn/fail)",
                            "visibility is proved for the reader's own framing (fewer than five bytes left; cut inside the version line) and, for every header and stream, behind the header section (C06_trailer_or_finding: a record returned without error either had its complete trailer behind the declared block or carries the trailer finding; under fail the error); what a cut inside the header lines does before that point, and gzip members, are decided by the exhaustive enumeration of every cut on implementation and model",
                            "gzip (klauspost/compress) is the oracle Ω.gz: for every cut the harness hands the model the decompressor's verdict for each member (content prefix, clean/damaged end, compressed bytes consumed)",
